@@ -144,7 +144,7 @@ CHECKS["C08"] = ("model_checking",
     "DESIGN.md section 4 C08")
 
 CHECKS["C20"] = ("model_checking",
-    "DiscoveryProtocol.tla (message-level model of the computation and replica parts of discovery: client API calls, directory and client handlers, FIFO channels) model-checked "
+    "DiscoveryProtocol.tla (message-level model of discovery - computations, replicas, agent subscriptions, departures and returns: client API calls, directory and client handlers, FIFO channels) model-checked "
     "exhaustively and every explored transition replayed on the real Discovery / Directory objects with full state comparison; TLC-enumerated histories of discovery "
     "operations (Gen_C20 over Discovery.tla: computations, replicas, agent subscriptions and departures) executed on real agents with imposed delivery orders, "
     "convergence judged by TLC (Judge_C20)",
@@ -157,10 +157,10 @@ CHECKS["C20"] = ("model_checking",
     "item fired a callback. DiscoveryProtocol.tla gives the mechanism: one action per API call / handler invocation over the real data (views, callback entries incl. the "
     "empty entry one-shot callbacks leave behind, directory tables, channel contents); the invariants that hold are checked in every state (directory right when "
     "publications arrive in order, views converge for subscriptions never dropped, subscribed agents known to the directory), every transition (quick: 1 computation, 3 API "
-    "calls with replicas and 4 without; thorough: 5 / 6, and 2 computations x 3 / 4) is replayed on the real objects; the statement itself is violated in the model, and TLC's counterexamples, executed on the "
+    "calls with replicas, 3 with agent operations; thorough: 5 / 6 / 4, and 2 computations x 3 / 4) is replayed on the real objects; the statement itself is violated in the model, and TLC's counterexamples, executed on the "
     "real objects, must end in the model's final state and be judged as (known) violations.",
-    "Trusted: TLC, vlib/agentrt.py, the channel interception in vlib/props/C20.py. The agent part (subscriptions to agents, departures) is specified at the level of "
-    "the API and of the convergence statement only (Discovery.tla); its handlers are not modelled step by step. Agents that left do not come back in the model.", "DESIGN.md section 4 C20")
+    "Trusted: TLC, vlib/agentrt.py, the channel interception in vlib/props/C20.py. An agent that left may register again with the same address; its own views are no "
+    "longer compared. subscribe_all_agents is not modelled.", "DESIGN.md section 4 C20")
 
 CHECKS["C21"] = ("exploration",
     "thread identity of every computation callback recorded in real-thread orchestrated runs (vlib/threadrt.py) and judged by TLC (Judge_C21)",
